@@ -343,27 +343,24 @@ def check_record_lines(rep, M, f, label, Tm, Te, universal, single):
     rule = 'C12.R2'
     where = f.where
     l0m = rx.strip_lang(rx.lines_of(Tm, 'first', universal), '\r\n')
-    remaining = l0m
     for br in M.cascade:
-        pat, fl = M.rx[br['name']]
-        L = M.L(br['name'], br['mode'])
-        hit_m = remaining.intersect(rx.lift(L, l0m.markers))
+        hit_m = l0m.intersect(rx.lift(M.region_lang(br), l0m.markers))
         hit_e = rx.erase_markers(hit_m)
-        remaining = remaining.intersect(rx.lift(L.complement(), l0m.markers))
         if hit_e.is_empty():
             continue
         what = '%s: first line → %s' % (label, br['name'])
+        if br['kind'] == 'skip':
+            rep.fail(rule, f.site, label + ': first line is read', 'first line %r matches no reader regex' % hit_e.witness(), where=where)
+            continue
         if br['kind'] != 'field':
             rep.fail(rule, f.site, what, 'first line %r is taken by the continuation branch' % hit_e.witness(), where=where)
             continue
+        pat, fl = M.rx[br['key'][0]]
         w1, w2 = rx.agreement(pat, fl, br['mode'], hit_m, hit_e, ['key'], alpha=M.alpha)
         if w1 is not None or w2 is not None:
             rep.fail(rule, f.site, what, 'the key is not captured as written: %r' % (w2 or w1), where=where)
         else:
             rep.ok(rule, f.site, what, 'key captured')
-    rem = rx.erase_markers(remaining)
-    if not rem.is_empty():
-        rep.fail(rule, f.site, label + ': first line is read', 'first line %r matches no reader regex' % rem.witness(), where=where)
     raw = rx.lines_of(Te, 'rest', universal)
     rest = rx.strip_lang(raw, '\r\n')
     if single:
@@ -374,20 +371,19 @@ def check_record_lines(rep, M, f, label, Tm, Te, universal, single):
             rep.fail(rule, f.site, what, 'a single record produces the extra line %r' % rest.witness(), where=where)
         C02.hazards(rep, M, rule, f.site, label + ': first line', rx.erase_markers(l0m), rx.erase_markers(rx.lines_of(Tm, 'first', universal)), where)
         return
-    rem2 = rest
     for br in M.cascade:
-        L = M.L(br['name'], br['mode'])
-        hit = rem2.intersect(L)
-        rem2 = rem2.minus(L)
+        hit = rest.intersect(M.region_lang(br))
         if hit.is_empty():
             continue
         what = '%s: record line → %s' % (label, br['name'])
-        if br['kind'] == 'field':
+        if br['kind'] == 'skip':
+            rep.fail(rule, f.site, label + ': record lines are read', 'record line %r matches no reader regex (record lost)' % hit.witness(), where=where)
+        elif br['kind'] != 'cont':
             rep.fail(rule, f.site, what, 'record line %r is read as a new field' % hit.witness(), detail={'witness': hit.witness()}, where=where)
+        elif not br['verbatim']:
+            rep.fail(rule, f.site, what, 'record line %r is not kept verbatim' % hit.witness(), where=where)
         else:
             rep.ok(rule, f.site, what, 'kept verbatim as continuation')
-    if not rem2.is_empty():
-        rep.fail(rule, f.site, label + ': record lines are read', 'record line %r matches no reader regex (record lost)' % rem2.witness(), where=where)
     if not rest.is_empty():
         C02.hazards(rep, M, rule, f.site, label + ': record line', rest, raw, where)
 
